@@ -291,7 +291,14 @@ class URLInfo(object):
             raise ValueError('Invalid IPv6 address: {}'
                              .format(ascii(hostname)))
 
-        hostname = ipaddress.IPv6Address(hostname[1:-1]).compressed
+        address = hostname[1:-1]
+
+        if '[' in address or ']' in address:
+            # ipaddress accepts any text as the zone identifier
+            raise ValueError('Invalid IPv6 address: {}'
+                             .format(ascii(hostname)))
+
+        hostname = ipaddress.IPv6Address(address).compressed
 
         return hostname
 
